@@ -43,8 +43,9 @@ pub struct HistOut {
     pub sample: Value,
 }
 
-fn member(n: usize) -> WId {
-    WId { node_id: format!("x{n}"), generation: 0, addr: addr(9100 + n as u16) }
+fn member(n: usize, namesakes: bool) -> WId {
+    // namesakes: the members share node id and generation and differ by their address only (still distinct ids)
+    WId { node_id: if namesakes { "x".to_string() } else { format!("x{n}") }, generation: 0, addr: addr(9100 + n as u16) }
 }
 
 struct Rig {
@@ -60,6 +61,10 @@ struct Rig {
 
 impl Rig {
     fn new(cfg: FdCfg, n_members: usize, ctx: String) -> Rig {
+        Rig::new_with(cfg, n_members, ctx, false)
+    }
+
+    fn new_with(cfg: FdCfg, n_members: usize, ctx: String, namesakes: bool) -> Rig {
         let o = NodeOpts { phi: cfg.phi, window: cfg.window, max_interval: cfg.max_interval, initial_interval: cfg.initial_interval, dead_grace: cfg.dead_grace.unwrap_or(Duration::from_secs(1_000_000_000)), ..Default::default() };
         Rig {
             main: mk_node(simple_id("r", 9000), &o),
@@ -67,7 +72,7 @@ impl Rig {
             cfg,
             shadows: vec![Shadow::default(); n_members],
             step: 0,
-            members: (0..n_members).map(member).collect(),
+            members: (0..n_members).map(|n| member(n, namesakes)).collect(),
             out: HistOut { findings: vec![], c: Counters::default(), hash: 0, sample: json!(null) },
             ctx,
         }
@@ -277,7 +282,11 @@ pub async fn random_history(seed: u64, i: u64, max_events: usize, allow_catchup:
         cfg
     };
     let nm = rng.random_range(1..=3);
-    let mut rig = Rig::new(cfg.clone(), nm, format!("history {i} cfg {cfg:?}"));
+    // one history in six: members that differ by their address only; one in five: heartbeat values spread over the
+    // whole u64 range (jumps of 2^62 / 2^63), so that "lower" can be lower by more than half the range
+    let namesakes = nm > 1 && rng.random_range(0..6) == 0;
+    let wide = rng.random_range(0..5) == 0;
+    let mut rig = Rig::new_with(cfg.clone(), nm, format!("history {i} cfg {cfg:?}{}{}", if namesakes { " namesakes" } else { "" }, if wide { " wide-heartbeats" } else { "" }), namesakes);
     let events = rng.random_range(1..=max_events);
     // a quarter of the histories interleave calls of the external catch-up entry point (no heartbeat in them)
     let with_catchup = allow_catchup && rng.random_range(0..4) == 0;
@@ -310,7 +319,11 @@ pub async fn random_history(seed: u64, i: u64, max_events: usize, allow_catchup:
                     let kind = if regime <= 1 { rng.random_range(0..10).min(6) } else { rng.random_range(0..10) };
                     let v = match kind {
                         0..=5 => {
-                            cur[m] += rng.random_range(1..3);
+                            let jump = if wide && rng.random_range(0..4) == 0 { [1u64 << 62, 1 << 63, (1 << 63) + (1 << 62), u64::MAX / 3][rng.random_range(0..4)] } else { rng.random_range(1..3) };
+                            cur[m] = cur[m].saturating_add(jump).min(u64::MAX - 8);
+                            if wide {
+                                rig.out.c.inc("heartbeat_values_from_the_wide_range");
+                            }
                             cur[m]
                         }
                         6 => cur[m],
@@ -330,6 +343,9 @@ pub async fn random_history(seed: u64, i: u64, max_events: usize, allow_catchup:
         }
     }
     rig.eval();
+    if namesakes {
+        rig.out.c.inc("histories_with_namesake_members");
+    }
     rig.out.sample = json!({"history": i, "phi": cfg.phi, "window": cfg.window, "max_interval_s": cfg.max_interval.as_secs_f64(), "initial_interval_s": cfg.initial_interval.as_secs_f64(), "members": nm, "events": events});
     rig.out
 }
@@ -338,7 +354,7 @@ pub async fn random_history(seed: u64, i: u64, max_events: usize, allow_catchup:
 pub async fn exact_witness(phi: f64, interval: Duration, window: usize, n_beats: usize) -> HistOut {
     let cfg = FdCfg { phi, window, max_interval: interval, initial_interval: interval, dead_grace: None };
     let mut rig = Rig::new(cfg.clone(), 1, format!("exact-boundary witness phi {phi} interval {interval:?} window {window} beats {n_beats}"));
-    let x = cid(&member(0));
+    let x = cid(&member(0, false));
     let mut v = 10;
     for k in 0..n_beats {
         v += 1;
